@@ -5,7 +5,7 @@ receives opts.segments when present); B3 no vertex is dropped or duplicated betw
 vector (each stage is a map-like loop with exactly one push per element; normalize_longitudes is a map+collect).
 Not decided: finiteness, latitude range, orientation, 180-degree window, corner stability (numerical)."""
 from ..terms import fn_terms, fmt, strip_site, walk, const_int
-from ..query import option_default, loops_of, every_iteration, pushes_to, mutators_of, ref_key, returns_under, is_variant
+from ..query import option_default, closure_item_source, loops_of, every_iteration, pushes_to, mutators_of, ref_key, returns_under, is_variant
 from ..run import where
 from .cell_common import *
 
@@ -148,7 +148,7 @@ def run(ctx):
             break
         run.inst("C11.B3", "ring-length-preserved", okc and why is None,
                  "normalize_longitudes receives the split pentagon's vertices through %d element-wise stage(s) %s%s" % (len(stages), stages, "" if why is None else " - " + why), where(norm_calls[0].span))
-        run.floor("C11.B3", "map-like stages in cell_to_boundary", len(stages), 2)
+        run.floor("C11.B3", "map-like stages in cell_to_boundary", len(stages), 1)
     # normalize_longitudes is element-wise
     if NORM not in facts.fns:
         run.missing("C11.B3", NORM)
@@ -208,5 +208,53 @@ def run(ctx):
             kinds += leaf_calls(fx, rt, set())
         run.inst("C11.B4", "unwrap-reference-is-longitude", bool(refs) and bool(kinds) and all(k == "longitude" for k in kinds),
                  "the reference the ring is unwrapped around derives from %s on its %d path(s) (must be longitudes only)" % (sorted(set(kinds)), len(kinds)), where(facts.fns[NORM]["span"]))
+    # B5: each ring point is pulled towards the reference individually: every +-180 comparison tests that point's own longitude
+    if NORM in facts.fns:
+        per_point, not_per_point = 0, []
+        for p_, f_ in sorted(facts.fns.items()):
+            if not p_.startswith(NORM) or f_["kind"] not in ("Fn", "Closure"):
+                continue
+            fx = fn_terms(facts, p_)
+            its = closure_item_source(facts, p_) if f_["kind"] == "Closure" else None
+            lpsx = loops_of(fx)
+            for b in sorted(fx.cfg.reach):
+                t = fx.blocks[b]["term"]
+                if t["k"] != "switch":
+                    continue
+                d = fx.switch_term(b)
+                from ..terms import const_float as _cf
+                if not (d[0] == "bin" and d[1] in ("Gt", "Lt", "Ge", "Le") and _cf(d[3]) is not None and abs(abs(_cf(d[3])) - 180.0) < 1e-9):
+                    continue
+                # the tested variable, through its own updates
+                own = False
+                seen_, st_ = set(), [d[2]]
+                while st_:
+                    y = st_.pop()
+                    for x in walk(y):
+                        if x[0] == "call" and isinstance(x[1], str) and x[1].endswith("::longitude") and x[2]:
+                            a = peel(x[2][0])
+                            if its is not None and a == ("param", 2):
+                                own = True
+                            if any(l.item is not None and strip_site(peel(l.item)) == strip_site(a) for l in lpsx):
+                                own = True
+                        if x[0] == "phi" and x[1] == fx.path and x not in seen_:
+                            seen_.add(x)
+                            st_.extend(fx.phi_operands(x).values())
+                if own:
+                    per_point += 1
+                else:
+                    not_per_point.append(fmt(d)[:60])
+        run.inst("C11.B5", "wrap-per-point", per_point >= 2 and not not_per_point,
+                 "%d comparison(s) with +-180 test the longitude of the point being mapped%s" % (per_point, "" if not not_per_point else "; these do not: %s" % not_per_point[:2]),
+                 where(facts.fns[NORM]["span"]))
+    # B6: the ring is split from the shape's exact vertex list, not from the padded fixed-size accessor
+    GV = "a5::geometry::pentagon::PentagonShape::get_vertices"
+    for user in (SPLIT, C2B):
+        if user in facts.fns:
+            fu = fn_terms(facts, user)
+            pads = [c for c in fu.calls() if c.callee == GV]
+            run.inst("C11.B6", "exact-vertex-list:" + user.split("::")[-1], not pads,
+                     "%s reads the shape's vertices through %s" % (user.split("::")[-1], "the exact-length list" if not pads else "get_vertices(), the 5-slot array that pads triangles with (0,0)"),
+                     where(pads[0].span) if pads else where(fu.fn["span"]))
     run.inst("C11.B1", "world-cell-empty", len(empties) <= 1, "the only other Ok result is the empty ring of the world cell", w, nontrivial=False)
     run.floor("C11", "rule instances", len(run.instances), 10)
